@@ -43,6 +43,10 @@ type Contract struct {
 	Requires []*Clause
 	Ensures  []*Clause
 	OnPanic  []*Clause // obligations on panicking exits
+	Mints    []*Clause // for every bank mint on a path and every denom d with non-zero amount
+	Burns    []*Clause // likewise for burns
+	SupplyWrapper bool // forwards its coins argument to a bank mint/burn: its callers are the sites
+	MigrationOnly bool // must be unreachable from message and block entry points
 	Modifies []string
 	HasMod   bool
 	Bounds   map[string]int
@@ -284,7 +288,15 @@ func (ss *SpecSet) directive(cur **Contract, pkgPath, file string, ln int, body 
 		c := &Contract{Key: strings.ReplaceAll(rest, " ", ""), PkgPath: pkgPath, File: file, Line: ln, Bounds: map[string]int{}, Foralls: map[string]smt.Sort{}}
 		ss.Contracts = append(ss.Contracts, c)
 		*cur = c
-	case "requires", "ensures", "onpanic":
+	case "supply-wrapper":
+		if *cur != nil {
+			(*cur).SupplyWrapper = true
+		}
+	case "migration-only":
+		if *cur != nil {
+			(*cur).MigrationOnly = true
+		}
+	case "requires", "ensures", "onpanic", "mints", "burns":
 		if *cur == nil {
 			return fail(fmt.Errorf("%s outside a func block", word))
 		}
@@ -299,6 +311,10 @@ func (ss *SpecSet) directive(cur **Contract, pkgPath, file string, ln int, body 
 			(*cur).Ensures = append((*cur).Ensures, c)
 		case "onpanic":
 			(*cur).OnPanic = append((*cur).OnPanic, c)
+		case "mints":
+			(*cur).Mints = append((*cur).Mints, c)
+		case "burns":
+			(*cur).Burns = append((*cur).Burns, c)
 		}
 	case "modifies":
 		if *cur == nil {
